@@ -928,7 +928,13 @@ impl QueryRouter {
         let num_parameters = message_cursor.get_i16();
 
         for i in 0..num_parameters {
-            let mut len = message_cursor.get_i32() as usize;
+            // -1 is a NULL parameter: no value bytes follow.
+            let declared_len = message_cursor.get_i32();
+            let mut len = if declared_len < 0 {
+                0
+            } else {
+                declared_len as usize
+            };
             let format = match &parameter_format {
                 ParameterFormat::Text => ParameterFormat::Text,
                 ParameterFormat::Uniform(format) => *format.clone(),
@@ -968,6 +974,7 @@ impl QueryRouter {
                                 "Got wrong length for integer type parameter in bind: {}",
                                 len
                             );
+                            message_cursor.advance(len.min(message_cursor.remaining()));
                             continue;
                         }
                     },
@@ -976,6 +983,9 @@ impl QueryRouter {
                 };
 
                 shards.insert(sharder.shard(value));
+            } else {
+                // Not the sharding key: step over the value, the next parameter follows it.
+                message_cursor.advance(len.min(message_cursor.remaining()));
             }
         }
 
